@@ -18,9 +18,10 @@ Arguments N.ltb : simpl never.
 Arguments N.leb : simpl never.
 Arguments N.mul : simpl never.
 
-(* %ep names an environment object with at least n slots *)
+(* %ep names an environment object with at least n slots (nothing is asked when n = 0: code
+   without lexical slots — the entry lambda, eval's lambda — runs with any %ep) *)
 Definition ep_ok (s : vm) (n : N) : Prop :=
-  exists eid l, env_at s (ep s) = Some (eid, l) /\ n <= len l.
+  n = 0 \/ exists eid l, env_at s (ep s) = Some (eid, l) /\ n <= len l.
 
 (* ------------------------------------------------------------------ equations *)
 Lemma bind_eq {A B} (m : M A) (f : A -> M B) s a s' : m s = ROk a s' -> bindM m f s = f a s'.
@@ -60,7 +61,7 @@ Qed.
 Theorem load_lex_slot_total s n k :
   finv s -> ep_ok s n -> k < n -> exists v, load_lex_slot k s = ROk v s /\ no_lexptr v.
 Proof.
-  intros F (eid & l & He & Hn) Hk.
+  intros F [E0|(eid & l & He & Hn)] Hk; [lia|].
   destruct (list_get_some l k) as (v & Ev); [lia|].
   pose proof He as He0. apply env_at_some in He0 as (_ & _ & E).
   pose proof (li_flat s (fi_lex s F) eid l k v E Ev) as Hf.
@@ -101,7 +102,7 @@ Lemma ep_ok_set_env s n eid l i v :
   tget (envs (st s)) eid = Some l -> ep_ok s n ->
   ep_ok (with_store s (set_env (st s) eid (list_set l i v))) n.
 Proof.
-  intros E (e0 & l0 & H & Hn).
+  intros E [E0|(e0 & l0 & H & Hn)]; [left; exact E0|right].
   destruct (env_at_set_env s eid l i v (ep s) e0 l0 E H) as (l1 & H1 & Hl).
   exists e0, l1. split; [exact H1|lia].
 Qed.
@@ -110,7 +111,7 @@ Theorem store_lex_slot_total s n k v :
   finv s -> ep_ok s n -> k < n ->
   exists s', store_lex_slot k v s = ROk tt s' /\ ep_ok s' n /\ hp s' = hp s /\ ep s' = ep s.
 Proof.
-  intros F Hep Hk. pose proof Hep as (eid & l & He & Hn).
+  intros F Hep Hk. pose proof Hep as [E0|(eid & l & He & Hn)]; [lia|].
   destruct (list_get_some l k) as (cur & Ev); [lia|].
   pose proof He as He0. apply env_at_some in He0 as (_ & _ & E).
   pose proof (li_flat s (fi_lex s F) eid l k cur E Ev) as Hf.
@@ -160,7 +161,7 @@ Proof.
 Qed.
 Lemma ep_ok_with_ip s i n : ep_ok s n -> ep_ok (with_ip s i) n.
 Proof.
-  intros (e & l & H & Hn). exists e, l. split; [|exact Hn].
+  intros [E0|(e & l & H & Hn)]; [left; exact E0|right]. exists e, l. split; [|exact Hn].
   rewrite (env_at_ext s (with_ip s i)) by reflexivity. exact H.
 Qed.
 Lemma lex_okb_in l o : lex_okb l = true -> In o (l_bc l) -> lex_slotb (len (l_envmap l)) o = true.
@@ -374,7 +375,7 @@ Proof.
   { apply env_at_some. cbn [hp with_ep with_heap st with_store].
     split; [apply Ha|]. split; [exact Hca|]. unfold new_env. cbn [snd envs]. apply tget_tset_same. }
   split.
-  - exists (next_id (st s)), env. cbn [ep with_ep]. split; [exact Henv|]. lia.
+  - right. exists (next_id (st s)), env. cbn [ep with_ep]. split; [exact Henv|]. lia.
   - exists env. cbn [ep with_ep]. split; [exact Henv|]. lia.
 Qed.
 
@@ -536,7 +537,7 @@ Theorem ret_restores_ep_ok s n e i b eid l m :
 Proof.
   intros Hf Hc He Hm. eexists. split; [apply (ret_total s n e i b Hf Hc)|].
   split; [|split; [reflexivity|split; reflexivity]].
-  exists eid, l. split; [|exact Hm]. cbn [ep with_bp with_ip with_ep].
+  right. exists eid, l. split; [|exact Hm]. cbn [ep with_bp with_ip with_ep].
   erewrite env_at_ext; [exact He|reflexivity|reflexivity].
 Qed.
 
@@ -550,4 +551,44 @@ Proof.
   rewrite (bind_eq (ret n) _ s n s eq_refl).
   rewrite (bind_eq _ _ _ _ _ (usub_eq (bp s) n s Hn)).
   apply stack_get_eq. lia.
+Qed.
+
+(* ------------------------------------------------------------------ CLOSURE: no slot-index panic *)
+Definition iof_okb (n : N) (envmap : list (vcell * bsrc)) : bool :=
+  forallb (fun e => match snd e with BIofEnvironment i => i <? n | _ => true end) envmap.
+
+Lemma load_arg_panic a s k : load_arg a s = RPanic k -> k = 40.
+Proof.
+  unfold load_arg. intros H. rewrite (bind_eq get_vm _ s s s eq_refl) in H.
+  apply (bind_pure_panic _ _ _ _ (pure_stack_get _)) in H as [H|(x & _ & H)]; [destruct (stack_get_nopanic _ _ _ H)|].
+  apply (bind_pure_panic _ _ _ _ (pure_as_argc _)) in H as [H|(argc & _ & H)]; [destruct (as_argc_nopanic _ _ _ H)|].
+  apply (bind_pure_panic _ _ _ _ (pure_usub _ _)) in H as [H|(base & _ & H)]; [exact (usub_panic _ _ _ _ H)|].
+  destruct (stack_get_nopanic _ _ _ H).
+Qed.
+
+Theorem build_closure_environment_panic s n envmap k :
+  ep_ok s n -> iof_okb n envmap = true ->
+  build_closure_environment envmap s = RPanic k -> k = 40.
+Proof.
+  intros Hep. unfold build_closure_environment.
+  match goal with |- _ -> ?g _ _ _ = _ -> _ =>
+    assert (H : forall m acc, iof_okb n m = true -> g m acc s = RPanic k -> k = 40) end.
+  2:{ intros Hm. apply H. exact Hm. }
+  induction m as [|[sym src] r IH]; intros acc Hm H0.
+  - discriminate H0.
+  - cbn [iof_okb forallb snd] in Hm. apply andb_prop in Hm as [Hi Hr].
+    destruct src; try (exact (IH _ Hr H0)).
+    + (* BIofArgument *)
+      apply (bind_pure_panic _ _ _ _ (pure_load_arg _)) in H0 as [H0|(v & _ & H0)];
+        [exact (load_arg_panic _ _ _ H0)|exact (IH _ Hr H0)].
+    + (* BIofEnvironment *)
+      apply N.ltb_lt in Hi. destruct Hep as [E0|(eid & l & He & Hn)]; [lia|].
+      destruct (list_get_some l n0) as (cur & Ec); [lia|].
+      rewrite (bind_eq get_vm _ s s s eq_refl) in H0.
+      assert (R : forall g : vcell -> M (list vcell),
+        (dom ev <- hget (ep s); dom eid0 <- as_lexenv ev; dom v0 <- env_get eid0 n0; g v0) s = g cur s).
+      { intros g. rewrite (bind_eq _ _ _ _ _ (hget_env _ _ _ _ He)). cbn [as_lexenv].
+        rewrite (bind_eq (ret eid) _ s eid s eq_refl).
+        apply env_at_some in He as (_ & _ & E). rewrite (bind_eq _ _ _ _ _ (env_get_eq _ _ _ _ _ E Ec)). reflexivity. }
+      rewrite R in H0. destruct cur; exact (IH _ Hr H0).
 Qed.
